@@ -179,6 +179,21 @@ func c02Case(c dirCase, viol func(sig, detail string), r *core.Run) {
 			break
 		}
 	}
+	// the same directory through a link system that reifies every node it
+	// loads (NodeReifier = unixfsnode.Reify): the root arrives as a directory
+	// already, child shards reach the library already interpreted
+	if len(want) <= 64 {
+		lr := lsReifying(s)
+		if n, err := loadRoot(lr, root); err != nil {
+			viol("reify-error reifying-linksystem "+c.Builder, fmt.Sprintf("%s: %v", c, err))
+		} else if p, pv := core.Guard(func() {
+			mapView(n, want, non, func(sig, detail string) {
+				viol(sig+" reifying-linksystem "+c.Builder, fmt.Sprintf("%s loaded through a reifying link system: %s", c, detail))
+			})
+		}); p {
+			viol("panic dir-view reifying-linksystem "+c.Builder, fmt.Sprintf("%s: %v", c, pv))
+		}
+	}
 	if r != nil {
 		r.States.Add(1)
 	}
